@@ -377,6 +377,25 @@ class ConstraintOperatorResolver(OperatorResolver):  # pylint: disable=unnecessa
     one.
     """
 
+    def resolve(
+        self, token: Token
+    ) -> Generator[tuple[Token, Iterable[Operator]], None, None]:
+        if token.token in self.operator_table:
+            yield from super().resolve(token)
+            return
+        # Adjacent operators are lexed as one token (e.g. "=-" in "a = -b").
+        # Every constraint operator is a single character, and only a sign
+        # (prefix operator) can follow another operator.
+        for i, symbol in enumerate(token.token):
+            op_token, operators = self._resolve(token, symbol)
+            if i > 0:
+                operators = [
+                    op for op in operators if op.fixity is Operator.Fixity.PREFIX
+                ]
+                if not operators:
+                    raise exc_for_token(token, f"Unknown operator '{token.token}'.")
+            yield op_token, operators
+
     @property
     def operators(self) -> list[Operator]:
         def join_tuples(lhs: Any, rhs: Any) -> tuple:
